@@ -424,6 +424,11 @@ def run(rep, tier):
     rep.rule('R14e', 'tree ids equal container positions', floor=4)
     rep.rule('R07b', 'reference members of the tree classes are bound to storage that outlives the constructor', floor=3)
     rep.rule('R14a', 'guards of every candidate construction site', floor=2)
+    for r_, d_ in (('R12c', 'update sites of lex_dijkstra (premise: the trees are shortest-path trees with consistent labels)'), ('R12d', 'label extension'),
+                   ('R12e', 'tree nodes and links follow the predecessor map'), ('R02h', 'relaxation contract of lex_dijkstra'),
+                   ('R13a', 'greedy_fvs bookkeeping (premise of the FVS collection: its roots form a feedback vertex set)'), ('R13b', 'discard threshold'),
+                   ('R13c', 'neighbour updates'), ('R13d', 'emission'), ('R13e', 'emission loop bound'), ('R13f', 'no early exit'), ('R13g', 'front/pop pairing')):
+        rep.rule(r_, d_, floor=0)
     rep.rule('R14b', 'recorded weight formula', floor=2)
     rep.rule('R14c', 'FVS / ISO collections are sub-collections by provenance', floor=2)
     rep.rule('R14d', 'root node weight is zero', floor=1)
@@ -441,6 +446,21 @@ def run(rep, tier):
         check_live_references(rep, prog)
         c12.check_first_in_path(rep, prog)
         c12.check_comparators(rep, prog)
+        # premises of the collections: the trees behind the candidates (C12's rules) and the root set of the FVS collection (C13's rules)
+        c12.check_lex_updates(rep, prog)
+        c12.check_combine(rep, prog)
+        c12.check_tree_construction(rep, prog)
+        from . import c13, search
+        sub = type(rep)(rep.prop, rep.tier)
+        search.check_relaxation(sub, prog)
+        for i in sub.instances.values():
+            if 'lex_dijkstra' in i.function:
+                rep.add(i.rule, i.site, i.function, i.what, i.status, i.detail, key=i.key)
+        sub13 = type(rep)(rep.prop, rep.tier)
+        for fn13 in prog.fns(c13.FN):
+            c13.check(sub13, prog, fn13)
+        for i in sub13.instances.values():
+            rep.add(i.rule, i.site, i.function, i.what, i.status, i.detail, key=i.key)
     if n == 0:
         rep.analysis_broken('no candidate construction site found (anchor vanished)')
     pos = os.path.join(env.WITNESS, 'positive', 'c14_candidates.cc')
